@@ -66,7 +66,12 @@ def bisector_obligations(prefix):
     dist2 = norm2(sub(loc, ngb))
     ret = Or(*[c for c, _ in env.returns]) if env.returns else FALSE
     obs.append(Obligation(prefix + ".bisector.returns_iff_safety_radius_lt_distance", P + [Ge(sr, R0)],
-                          And(Eq(ret, Lt(sr * sr, dist2)), Eq(called, Not(Lt(sr * sr, dist2)))), u.label))
+                          And(Eq(ret, Lt(sr * sr, dist2)), Eq(called, Not(Lt(sr * sr, dist2)))), u.label, replay=replay_small_periodic))
+    # no candidate is dropped: whatever (idx, shift) the iterator hands over - another generator, or a periodic image of the cell's own
+    # generator (idx == cell.idx with a shift; n = 1, 2 or thin boxes) - either ends the loop (beyond the safety radius) or is clipped
+    obs.append(Obligation(prefix + ".bisector.every_candidate_ends_the_loop_or_is_clipped_own_periodic_images_included", P + [Ge(sr, R0)],
+                          Or(ret, called), u.label, note="the neighbour index and the cell's own index are independent symbols: equal indices are covered",
+                          replay=replay_small_periodic))
     meta = {"fn": u.label + " / neighbour-loop body", "slice_sha": sha}
     return obs, meta
 
@@ -105,6 +110,12 @@ def face_init_obligations(prefix):
     nrm = r.f["normal"]
     obs.append(Obligation(prefix + ".face_init.normal_points_away_from_left_generator", P, Lt(dot(nrm, sub(loc, p)), R0), uf.label,
                           note="from the property statement and the doc comment of VoronoiFace::normal, not from the code"))
+    # closed half-space: a generator may lie exactly ON a wall of the box (valid input); the normal of that wall's face must still be the
+    # outward one, i.e. minus the inward unit normal of the clipping plane
+    Pc = [Eq(norm2(n), Const(1, "Real")), Ge(dot(n, sub(loc, p)), R0)] + ctx.assume + ctx.ok
+    obs.append(Obligation(prefix + ".face_init.normal_is_minus_the_inward_plane_normal_also_for_a_generator_on_the_plane", Pc, veq(nrm, Vec([-c for c in n.c])), uf.label,
+                          note="'pointing away from the left generator (.. or outward through the wall for boundary faces)', for the closed box",
+                          replay=replay_normal_on_wall))
     obs.append(Obligation(prefix + ".face_init.normal_is_unit", P, Eq(norm2(nrm), Const(1, "Real")), uf.label))
     obs.append(Obligation(prefix + ".face_init.normal_orthogonal_to_face_plane", P, veq(cross(nrm, n), Vec([R0] * 3)), uf.label))
     obs.append(Obligation(prefix + ".face_init.accumulators_start_at_zero", P, And(Eq(r.f["area"], R0), veq(r.f["centroid"], Vec([R0] * 3))), uf.label))
@@ -162,7 +173,7 @@ def accumulator_obligations(prefix):
         fin, env3, ctx3, _ = ufz.run({"self": acc}, ctx3, extra_files=XF)
         obs.append(Obligation(tag + ".finalize_defined", ctx3.assume + ctx3.ok, And(*[Implies(o.pc, o.cond) for o in ctx3.obls]) if ctx3.obls else TRUE, ufz.label))
         obs.append(Obligation(tag + ".finalize_centroid_on_plane_if_area_positive", ctx3.assume + ctx3.ok + [inv(acc), Gt(area, R0)],
-                              Eq(dot(m, fin.f["centroid"]), d), ufz.label))
+                              Eq(dot(m, fin.f["centroid"]), d), ufz.label, replay=replay_centroid_on_plane if ty == "VoronoiFaceIntegral" else None))
         obs.append(Obligation(tag + ".finalize_keeps_area", ctx3.assume + ctx3.ok, Eq(fin.f["area"], area), ufz.label))
     # cell integral
     uc = Unit("voronoi/integrals.rs", "VolumeCentroidIntegral::collect@CellIntegral")
@@ -185,3 +196,72 @@ def accumulator_obligations(prefix):
                           And(veq(scale(Const(4, "Real") * vol, fin.f["centroid"]), cen), Eq(fin.f["volume"], vol)), ufz.label,
                           note="centroid = (sum vol_k (v0+v1+v2+g)) / (4 sum vol_k) = sum vol_k c_k / sum vol_k with c_k the tetrahedron centroid"))
     return obs, units
+
+
+def replay_small_periodic(ob):
+    """Replay for the neighbour-loop obligations: periodic tessellations of 1 and 2 generators (a generator neighbours its own images)
+    in 1D/2D/3D through the public API; C06's sentences are evaluated on the real output: the cell measures sum to the box measure
+    and there are no boundary faces along periodic axes."""
+    from ..runner import replay_requests
+    reqs = []
+    for d in (1, 2, 3):
+        for gens in ([[0.3, 0.4, 0.6]], [[0.2, 0.3, 0.4], [0.7, 0.6, 0.8]]):
+            g = [[p[0], p[1] if d >= 2 else 0.0, p[2] if d == 3 else 0.0] for p in gens]
+            reqs.append({"op": "build", "gens": g, "anchor": [0, 0, 0], "width": [1.0, 1.5 if d >= 2 else 1.0, 2.0 if d == 3 else 1.0], "dim": d, "periodic": True})
+    bad = []
+    for rq, a in zip(reqs, replay_requests(reqs, timeout=300)):
+        if "cells" not in a:
+            bad.append({"request": rq, "real": a, "what": "construction panics"}); continue
+        vol = sum(c["volume"] for c in a["cells"]); want = rq["width"][0] * rq["width"][1] * rq["width"][2]
+        nb = [f for f in a["faces"] if f["right"] is None]
+        if abs(vol - want) > 1e-9 * want: bad.append({"request": rq, "sum_of_cell_measures": vol, "box_measure": want})
+        elif nb: bad.append({"request": rq, "boundary_faces_in_a_periodic_tessellation": len(nb)})
+    return {"reproduced": bool(bad), "runs": bad[:2], "searched": len(reqs),
+            "what": "periodic tessellations with 1 and 2 generators: measures must sum to the box measure, no boundary faces"}
+
+
+def replay_normal_on_wall(ob):
+    """Generators exactly on walls of a reflective box (1D/2D/3D), through the public API: every boundary face's normal must point out of
+    the box (normal . (box centre - face centroid) < 0) and every interior face's normal from left to right."""
+    from ..runner import replay_requests
+    reqs = []
+    for d, gens in ((3, [[0.0, 0.5, 0.5], [1.0, 0.25, 0.75], [0.5, 0.0, 0.3], [0.4, 0.6, 1.0]]), (2, [[0.0, 0.5, 0], [1.0, 0.25, 0], [0.5, 0.0, 0]]), (1, [[0.0, 0, 0], [0.6, 0, 0]])):
+        reqs.append({"op": "build", "gens": gens, "anchor": [0, 0, 0], "width": [1, 1, 1], "dim": d})
+    bad = []
+    for rq, a in zip(reqs, replay_requests(reqs, timeout=300)):
+        if "faces" not in a: continue
+        for f in a["faces"]:
+            g = rq["gens"][f["left"]]
+            if f["right"] is None:
+                centre = [0.5, 0.5 if rq["dim"] >= 2 else 0.0, 0.5 if rq["dim"] == 3 else 0.0]
+                s = sum(f["normal"][i] * (f["centroid"][i] - centre[i]) for i in range(3))
+            else:
+                r = rq["gens"][f["right"]]
+                s = sum(f["normal"][i] * (r[i] - g[i]) for i in range(3))
+            if not s > 0: bad.append({"request": rq, "face": f, "normal_dot_outward_direction": s})
+    return {"reproduced": bool(bad), "runs": bad[:2], "what": "VoronoiFace::normal() of a face of a cell whose generator lies exactly on a wall points into the cell"}
+
+
+def replay_centroid_on_plane(ob):
+    """Small tessellations at box sizes 1, 1e-9 and 1e+6 through the public API: every face centroid must lie on its bisector plane / wall
+    (distance relative to the box size below 1e-6)."""
+    from ..runner import replay_requests
+    reqs, bad = [], []
+    base = [[0.21, 0.33, 0.41], [0.72, 0.28, 0.55], [0.45, 0.81, 0.37], [0.58, 0.52, 0.86]]
+    for sc in (1.0, 1e-9, 1e6):
+        for d in (3, 2):
+            gens = [[p[0] * sc, p[1] * sc, p[2] * sc if d == 3 else 0.0] for p in base]
+            reqs.append({"op": "build", "gens": gens, "anchor": [0, 0, 0], "width": [sc, sc, sc], "dim": d, "_scale": sc})
+    for rq, a in zip(reqs, replay_requests(reqs, timeout=300)):
+        sc = rq["_scale"]
+        for f in a.get("faces", []):
+            g = rq["gens"][f["left"]]
+            if f["right"] is not None:
+                r = rq["gens"][f["right"]]; mid = [(g[i] + r[i]) / 2 for i in range(3)]
+                dist = sum((f["centroid"][i] - mid[i]) * f["normal"][i] for i in range(3))
+            else:
+                c = f["centroid"]; n = f["normal"]; ax = max(range(3), key=lambda i: abs(n[i]))
+                wall = sc if n[ax] > 0 else 0.0
+                dist = c[ax] - wall
+            if not abs(dist) <= 1e-6 * sc: bad.append({"request": {k: v for k, v in rq.items() if k != "_scale"}, "face": f, "distance_of_centroid_from_face_plane": dist, "box_size": sc})
+    return {"reproduced": bool(bad), "runs": bad[:2], "what": "face centroid does not lie on the face's plane"}
